@@ -64,8 +64,29 @@ func newLexer(xpath string) *lexer.Lexer {
 	}
 
 	disambiguateOperatorNames(lex)
+	rejectForeignWhitespace(lex)
 
 	return lex
+}
+
+// The generated lexer skips everything unicode.IsSpace accepts between tokens
+// (no-break space, em space, ideographic space, ...).  XPath's ExprWhitespace
+// is only #x20, #x9, #xD and #xA, so a string that separates tokens with
+// anything else is not an expression: the token after such a gap becomes an
+// error token and the parser rejects the string.
+func rejectForeignWhitespace(lex *lexer.Lexer) {
+	end := 0
+
+	for i, t := range lex.Tokens {
+		for _, r := range lex.I[end:t.Lext()] {
+			if r != ' ' && r != '\t' && r != '\r' && r != '\n' {
+				lex.Tokens[i] = token.New(token.Error, t.Lext(), t.Rext(), t.GetInput())
+				break
+			}
+		}
+
+		end = t.Rext()
+	}
 }
 
 // The generated lexer always returns and, or, div and mod as operator keywords,
